@@ -82,7 +82,21 @@ def apply(kind, k, C, F, rng):
     from cnfgen.transformations.shuffle import Shuffle
     from cnfgen.graphs import bipartite_random_left_regular
     if kind == "shuffle":
-        return Shuffle(F), None
+        # with random, fixed or explicitly given components
+        mode = rng.randrange(4)
+        N, M = F.number_of_variables(), len(F)
+        if mode == 0 or N == 0:
+            return Shuffle(F), None
+        if mode == 1:
+            return Shuffle(F, "fixed", "fixed", "fixed"), None
+        flips = [rng.choice((-1, 1)) for _ in range(N)]
+        perm = list(range(1, N + 1))
+        rng.shuffle(perm)
+        cperm = list(range(M))
+        rng.shuffle(cperm)
+        if mode == 2:
+            return Shuffle(F, flips, perm, cperm), None
+        return Shuffle(F, flips, "shuffle", cperm), None
     if kind in ("xorcomp", "majcomp"):
         N = F.number_of_variables()
         B = bipartite_random_left_regular(N, max(2, N), 2, seed=rng.randint(1, 10 ** 6)) if N else \
